@@ -173,4 +173,21 @@ theorem acceptPath_forced (lp now : Nat) (thr less : Bool) (h1 : 0 < lp) (h2 : n
 
 theorem accept_fst (b : Breaker) (now : Nat) (u : Rat) : (b.accept now u).1 = (b.pathOf now u).verdict := rfl
 
+/-! ### the weight and the numerator in hundredths (float policy) -/
+
+theorem rawWeight_eq (fb : Nat) : rawWeight fb = (((150 - (fb : Int)) : Int) : Rat) / 100 := by
+  unfold rawWeight kMax kMin
+  push_cast
+  grind
+
+theorem weight_eq_of_le (fb : Nat) (h : fb ≤ 40) : weight fb = (((150 - (fb : Int)) : Int) : Rat) / 100 := by
+  unfold weight
+  rw [rawWeight_eq]
+  have : ¬ ((((150 - (fb : Int)) : Int) : Rat) / 100 < kMin) := by
+    unfold kMin
+    have h2 : (110 : Int) ≤ 150 - (fb : Int) := by omega
+    have h3 : ((110 : Int) : Rat) ≤ (((150 - (fb : Int)) : Int) : Rat) := by exact_mod_cast h2
+    grind
+  rw [if_neg this]
+
 end GoZero.C01
